@@ -45,6 +45,14 @@ impl<'d> SimdOp for Quantize<'_, 'd, u8> {
 
         let zp_vec = i32_ops.splat(self.zero_point as i32);
         let scale_vec = src_ops.splat(self.inv_scale);
+
+        // Scaled values are clamped to the `i16` range before the conversion
+        // to `i32`, as the result of converting out-of-range floats and NaNs
+        // to int is ISA-dependent. The narrowing steps below saturate to this
+        // range anyway. NaN compares false and is replaced by the lower bound,
+        // so it maps to zero like a saturating `as u8` cast.
+        let min_vec = src_ops.splat(i16::MIN as f32);
+        let max_vec = src_ops.splat(i16::MAX as f32);
         let f32_v_len = src_ops.len();
 
         // Generate one vector of u8 elements in each iteration by quantizing
@@ -56,6 +64,8 @@ impl<'d> SimdOp for Quantize<'_, 'd, u8> {
             let src = src_ops.load_many::<4>(src_chunk);
             let quant_i32 = src.map(|x| {
                 let y = src_ops.mul(x, scale_vec);
+                let y = src_ops.select(y, min_vec, src_ops.ge(y, min_vec));
+                let y = src_ops.select(y, max_vec, src_ops.le(y, max_vec));
                 let y = src_ops.to_int_round(y);
                 i32_ops.add(y, zp_vec)
             });
@@ -67,9 +77,8 @@ impl<'d> SimdOp for Quantize<'_, 'd, u8> {
 
         // Quantize tail elements.
         for src in src_chunks.remainder() {
-            let y = (src * self.inv_scale).round_ties_even() as i32;
-            let y = (y + self.zero_point as i32).clamp(0, u8::MAX as i32);
-            dest_writer.write_scalar(y as u8);
+            let y = (src * self.inv_scale).round_ties_even() + self.zero_point as f32;
+            dest_writer.write_scalar(y as u8); // Saturating cast
         }
 
         dest_writer.into_mut_slice()
@@ -121,5 +130,35 @@ mod tests {
         let actual = Quantize::new(&src, actual, inv_scale, zero_point).dispatch();
 
         assert_eq!(actual, expected);
+    }
+
+    #[test]
+    fn test_quantize_non_finite_and_out_of_range() {
+        // Repeat the special values so they are handled by both the
+        // vectorized loop and the tail.
+        let len = u8_vec_len() * 2 + 7;
+        let special = [
+            f32::INFINITY,
+            f32::NEG_INFINITY,
+            f32::NAN,
+            1e30,
+            -1e30,
+            3e9,
+            -3e9,
+            40000.,
+            -40000.,
+            0.5,
+        ];
+        let src: Vec<f32> = special.iter().copied().cycle().take(len).collect();
+        for zero_point in [0, 35, 255] {
+            let inv_scale = 2.0;
+            let expected = reference_quantize(&src, inv_scale, zero_point);
+
+            let mut buf = Vec::with_capacity(src.len());
+            let actual = &mut buf.spare_capacity_mut();
+            let actual = Quantize::new(&src, actual, inv_scale, zero_point).dispatch();
+
+            assert_eq!(actual, expected);
+        }
     }
 }
